@@ -134,9 +134,12 @@ TransportSets == {{"grpc"}, {"rest"}, {"grpc", "rest"}}
 AdsOk == /\ apis \in {Apis, {OPS}, {IAM}, {LOC}, {OPS, LOC}}
          /\ rules \in {AllRules(1), AllRules(2), Row(1, 1, 0), Row(1, 2, 1), Row(2, 1, 2)}
          /\ transports \in {{"grpc"}, {"grpc", "rest"}}
+\* replay grid of the thorough tier: every rule set with both transports, single transports with a third of them
+ThoroughOk == transports = {"grpc", "rest"} \/ rules \in {AllRules(1), AllRules(2)} \cup OARows({0})
 Init == /\ apis \in SUBSET Apis /\ rules \in RuleSets /\ own \in BOOLEAN /\ legacy \in BOOLEAN
         /\ ~(own /\ legacy)
         /\ transports \in TransportSets
+        /\ (Scope = "thorough" => ThoroughOk)
         /\ tmpl \in (IF Scope \in {"small", "quick"} THEN {"default"} ELSE {"default", "ads"})
         /\ (tmpl = "ads" => AdsOk)
         /\ clients \in {{"sync"}, {"sync", "asyncio"}}
@@ -269,14 +272,15 @@ Case ==
                   body |-> RuleOf(m, rules[m]).body]],
     own |-> own, legacy |-> legacy, tmpl |-> tmpl,
     transports |-> SelectSeq(<<"grpc", "rest">>, LAMBDA t : t \in transports),
+    clients |-> SelectSeq(<<"sync", "asyncio">>, LAMBDA c : c \in clients),
     table |-> [i \in 1..10 |-> [rpc |-> RPCSeq[i], snake |-> Snake(RPCSeq[i]), reqtype |-> ReqType(RPCSeq[i]),
                                 resptype |-> WireRespType(RPCSeq[i]), field |-> Field(RPCSeq[i]), value |-> Value(RPCSeq[i])]],
-    expect |-> [ present |-> RpcSeqOf(Present("sync")),
+    expect |-> [ present |-> [sync |-> RpcSeqOf(Present("sync")), asyncio |-> RpcSeqOf(Present("asyncio"))],
                  calls |-> LET ps == PairsSeq(LAMBDA m, k : CanCallMixin(m, k) \/ CanCallOwn(m, k)) IN
                            [i \in 1..Len(ps) |-> IF CanCallMixin(ps[i][1], ps[i][2]) THEN CallRec(ps[i][1], ps[i][2])
                                                  ELSE OwnRec(ps[i][1], ps[i][2])],
                  outofscope |-> LET ps == PairsSeq(LAMBDA m, k : OutOfScope(m, k)) IN
                                 [i \in 1..Len(ps) |-> [m |-> ps[i][1], kind |-> ps[i][2]]] ] ]
-\* emitted once per configuration, for a library that has both clients (the harness compares every client that exists)
-Emit == (Sel /\ call = NoCall /\ clients = {"sync", "asyncio"}) => PrintT(<<"CASE", ToJson(Case)>>)
+\* emitted once per configuration and set of client classes (the harness picks the one the emitted library has)
+Emit == (Sel /\ call = NoCall) => PrintT(<<"CASE", ToJson(Case)>>)
 =============================================================================
